@@ -230,7 +230,7 @@ def parse_index(E, arr, idx, node):
         idx = (idx,)
     if any(x is Ellipsis for x in idx):
         raise Unsupported("ellipsis index")
-    if any(isinstance(x, (NdArr, list, SList)) for x in idx):
+    if any(isinstance(x, (NdArr, list, SList, tuple)) for x in idx):
         raise Advanced()
     if sum(1 for x in idx if x is not None) > arr.ndim:
         E.raise_("IndexError", node, "safety")
@@ -461,6 +461,19 @@ def arr_method(R, E, arr, name, args, kwargs, node):
         return R.np_max(E, arr, *args, **kwargs)
     if name == "min":
         return R.np_min(E, arr, *args, **kwargs)
+    if name == "prod":
+        axis = args[0] if args else kwargs.get("axis")
+        if arr.ndim == 2 and axis == 1 and isinstance(arr.shape[1], int):
+            fs = arr.snapshot()
+            w = arr.shape[1]
+
+            def pr(r):
+                v = z3.RealVal(1)
+                for c in range(w):
+                    v = v * fs.get(r, c)
+                return v
+            return NdArr.from_fn("prod", (arr.shape[0],), "real", pr)
+        raise Unsupported("prod")
     if name == "todense":
         return arr
     if name == "sort":
